@@ -66,17 +66,23 @@ structure Cfg where
   convertDense : Bool
   /-- `extract_slice_indices` accepts the start `-1` CPython reports for an EMPTY backward slice
       (false: `s < 0` raises `std::domain_error`, as written — `a[::-1]` on an empty array) -/
-  sliceEmptyBackward : Bool := false
+  sliceEmptyBackward : Bool := true
   /-- `ifelse_*` read `(*this)[i]` through the const `operator[]` (false: the non-const one, which raises on a
       read-only array, as written) -/
-  ifelseConstRead : Bool := false
+  ifelseConstRead : Bool := true
   /-- `setitem_scalar_mask` on a masked reference looks at a mask of the reference's own length
       (false: writes every referenced element, as written) -/
   maskOnMaskedHonoured : Bool := false
   deriving DecidableEq, Repr
 
+/-- the code as first examined (every defect present) — kept to document the former defects -/
 def Cfg.asWritten : Cfg := ⟨false, false, false, false, false⟩
+/-- every site as evidently intended -/
 def Cfg.repaired : Cfg := ⟨true, true, true, true, true⟩
+/-- THE CODE AS IT IS NOW (decided by the correspondence run of tools/props/c19.py on every run): the four
+    defects are fixed upstream-side in /repo; `setitem_scalar_mask` on a masked reference still ignores the
+    mask (recorded known finding) -/
+def Cfg.current : Cfg := ⟨true, true, true, true, false⟩
 
 /-- lowest admissible normalised start in `extract_slice_indices` -/
 def Cfg.minStart (c : Cfg) : Int := if c.sliceEmptyBackward then -1 else 0
@@ -220,7 +226,10 @@ inductive PyIdx
   | slice (start stop step : Option Int)
   deriving DecidableEq, Repr, Inhabited
 
-/-- result of `extract_slice_indices` (`minStart` = 0 as written; -1 in the repaired variant) -/
+/-- result of `extract_slice_indices`.  `minStart = -1` (default) is the current code, whose test
+    `(sl > 0 && s < 0) || e < -1 || sl < 0` is modelled by `s < -1 ∨ ...`: both start tests are false on every
+    output of `PySlice_AdjustIndices` (`SliceLemmas.current_start_test_equiv`), and `start` is only used when
+    `sl > 0`.  `minStart = 0` is the former test `s < 0`, which rejected empty backward slices. -/
 structure SliceIdx where
   start : Nat
   stop : Int          -- `end`; only assigned, never used afterwards
@@ -230,7 +239,7 @@ structure SliceIdx where
 
 /-- `extract_slice_indices(index, start, end, step, slicelength)`; `minEnd` is the
     lowest admissible `e` (`-1` in FixedArray / FixedVArray, `0` in FixedArray2D) -/
-def extractSliceIndices (len : Nat) (idx : PyIdx) (minEnd : Int := -1) (minStart : Int := 0) : Except Err SliceIdx :=
+def extractSliceIndices (len : Nat) (idx : PyIdx) (minEnd : Int := -1) (minStart : Int := -1) : Except Err SliceIdx :=
   match idx with
   | .slice a b c =>
     match sliceUnpack a b c with
@@ -279,7 +288,7 @@ def View.writeSliceElem (v : View) (s : SliceIdx) (x : Int) (i : Nat) (h : Heap)
   | .error e => .error e
 
 /-- `getslice`: a fresh array holding a copy -/
-def getslice (h : Heap) (v : View) (idx : PyIdx) (minStart : Int := 0) : Except Err (Heap × View) :=
+def getslice (h : Heap) (v : View) (idx : PyIdx) (minStart : Int := -1) : Except Err (Heap × View) :=
   match extractSliceIndices v.length idx (-1) minStart with
   | .error e => .error e
   | .ok s =>
@@ -335,7 +344,7 @@ def convert (cfg : Cfg) (h : Heap) (other : View) : Except Err (Heap × View) :=
     else .ok (h', f)
 
 /-- `setitem_scalar` -/
-def setitemScalar (h : Heap) (v : View) (idx : PyIdx) (data : Int) (minStart : Int := 0) : Except Err Heap :=
+def setitemScalar (h : Heap) (v : View) (idx : PyIdx) (data : Int) (minStart : Int := -1) : Except Err Heap :=
   if !v.writable then .error .readOnly else
   match extractSliceIndices v.length idx (-1) minStart with
   | .error e => .error e
@@ -379,7 +388,7 @@ def View.writeSliceFrom (v : View) (s : SliceIdx) (data : View) (i : Nat) (h : H
   | .error e => .error e
 
 /-- `setitem_vector` -/
-def setitemVector (h : Heap) (v : View) (idx : PyIdx) (data : View) (minStart : Int := 0) : Except Err Heap :=
+def setitemVector (h : Heap) (v : View) (idx : PyIdx) (data : View) (minStart : Int := -1) : Except Err Heap :=
   if !v.writable then .error .readOnly else
   match extractSliceIndices v.length idx (-1) minStart with
   | .error e => .error e
@@ -449,7 +458,7 @@ def View.chooseScalar (h : Heap) (v choice : View) (other : Int) (constRead : Bo
   | .ok c => if c != 0 then (if constRead then v.get h i else v.getNonConst h i) else .ok other
 
 /-- `ifelse_vector`: `tmp[i] = choice[i] ? (*this)[i] : other[i]` with the NON-const `(*this)[i]` -/
-def ifelseVector (h : Heap) (v choice other : View) (constRead : Bool := false) : Except Err (Heap × View) :=
+def ifelseVector (h : Heap) (v choice other : View) (constRead : Bool := true) : Except Err (Heap × View) :=
   match matchDimension v choice.length with
   | .error e => .error e
   | .ok len =>
@@ -461,7 +470,7 @@ def ifelseVector (h : Heap) (v choice other : View) (constRead : Bool := false) 
       | .ok vals => .ok (alloc h vals)
 
 /-- `ifelse_scalar` -/
-def ifelseScalar (h : Heap) (v choice : View) (other : Int) (constRead : Bool := false) : Except Err (Heap × View) :=
+def ifelseScalar (h : Heap) (v choice : View) (other : Int) (constRead : Bool := true) : Except Err (Heap × View) :=
   match matchDimension v choice.length with
   | .error e => .error e
   | .ok len =>
